@@ -5,7 +5,8 @@ is not in question - the claimed properties are about streams, schedules, faults
 must not inherit alarms that belong to C01/C15/C20.  Excluded (documented codec limitations of the
 pinned tree): negative enum numbers, negative and huge timedeltas, sub-microsecond times, string
 map keys that are empty (an entry with default key and default value encodes to nothing), float
-fields holding values not representable in binary32, NaN inside containers, -0.0.
+fields holding values not representable in binary32, NaN inside containers, -0.0 (drawn only for
+C10, where sizes are compared with bytes and equality with the default is the point).
 """
 from __future__ import annotations
 
